@@ -358,6 +358,20 @@ def rule_r3(chk, p, t):
             ok = ok and loops and any(any(x is u.ast for x in ast.walk(lp.ast)) for lp in loops)
             tgt = unparse(u.ast.target)
             ok = ok and (tgt.startswith("derivative[jj + half") or tgt == "a_perturbations")
+            # the thrust law is evaluated on the inertial position and velocity of this very state
+            calls = [c for c in ast.walk(u.ast.value) if isinstance(c, ast.Call) and unparse(c.func) == "self.finite_thrust"]
+            st = m.params[2] if len(m.params) > 2 else "state"
+            arg_ok = False
+            if len(calls) == 1 and len(calls[0].args) == 1:
+                a = inline_locals(m, calls[0].args[0])
+                if isinstance(a, ast.Call) and call_name(a) == "concatenate" and a.args and isinstance(a.args[0], (ast.Tuple, ast.List)) and len(a.args[0].elts) == 2:
+                    rr, vv = [unparse(x) for x in a.args[0].elts]
+                    want_r = unparse(inline_locals(m, ast.parse(f"{st}[jj:jj + half:step]", mode="eval").body))
+                    want_v = unparse(inline_locals(m, ast.parse(f"{st}[jj + half::step]", mode="eval").body))
+                    arg_ok = rr == want_r and vv == want_v
+                if not arg_ok:
+                    r.violation(m.qualname + ":argument", f"thrust-argument:{unparse(a)[:70]}", f"the armed thrust is evaluated on `{unparse(a)[:90]}`: the thrust frames (NTW, ECI) are built from the inertial position and velocity of the same state, `concatenate(({st}[jj:jj + half:step], {st}[jj + half::step]))` - an Earth-fixed position or another state's slice rotates the radial and cross-track thrust components", m.loc(u.ast))
+                    return
             if ok:
                 r.ok(m.qualname, f"`{unparse(u.ast)[:80]}` under `if self.finite_thrust`", m.loc(u.ast))
             else:
